@@ -211,8 +211,16 @@ func (fr *frame) havocLevels(st *State, ms map[string]int, byCallee bool) {
 	ft := fr.ft
 	allocOld := ft.heapTerm(st, allocHeap)
 	escNow := ""
+	var privs []string
 	if byCallee {
 		escNow = ft.heapTerm(st, escHeap)
+		for f := fr; f != nil; f = f.parent {
+			for _, a := range privateAllocs(f.fn) {
+				if v, ok := f.vals[a]; ok && v.T.S != "" && v.T.Sort == SRef {
+					privs = append(privs, v.T.S)
+				}
+			}
+		}
 	}
 	for _, h := range sortedKeys(ms) {
 		if ms[h] == 0 {
@@ -260,6 +268,10 @@ func (fr *frame) havocLevels(st *State, ms map[string]int, byCallee bool) {
 				old := ft.forceRaw(prev)
 				nw := ft.fresh(h, s)
 				ft.assume("true", fmt.Sprintf("(forall ((r Ref)) (! (=> (and (not (select %s r)) (not (select %s r))) (= (select %s r) (select %s r))) :pattern ((select %s r))))", entry, escNow, nw, old, nw))
+				// local variables whose address is never handed out are out of any callee's reach
+				for _, pr := range privs {
+					ft.assume("true", eq(sel(nw, pr), sel(old, pr)))
+				}
 				return nw
 			})
 			continue
